@@ -51,9 +51,10 @@ def queries(tier):
     for L in ([0, 1] if tier == 'quick' else [0, 1, 2]):
         qs.append(dict(name='split_len%d' % L, unit='split64', harness='h_split.c', defs={'LEN': L}, unwind=L + 3, timeout=1500, mem_gb=10,
                        tv_runs=300, desc='split_args on %d symbolic bytes vs reference shell-style tokenizer' % L, bounds='input length %d, all byte values but NUL' % L))
-    if tier == 'thorough':
+    if True:
+        # (quick: only the two quote openers - a quoted section holding the OTHER quote character needs 3 bytes)
         # length 3 with a concrete first byte (one cell per character class of the tokenizer; 'a' stands for an ordinary character)
-        for f, nm in ((34, 'dq'), (39, 'sq'), (92, 'bs'), (32, 'sp'), (9, 'tab'), (97, 'a')):
+        for f, nm in (((34, 'dq'), (39, 'sq'), (92, 'bs'), (32, 'sp'), (9, 'tab'), (97, 'a')) if tier == 'thorough' else ((34, 'dq'), (39, 'sq'))):
             qs.append(dict(name='split_len3_first_%s' % nm, unit='split64', harness='h_split.c', defs={'LEN': 3, 'FIRST': f}, unwind=6, timeout=1500, mem_gb=10,
                            tv_runs=200, desc='split_args on 3 bytes, first byte = %r, the other two symbolic, vs reference tokenizer' % chr(f), bounds='length 3, first byte %r' % chr(f)))
     # cheap concrete cells for the empty quoted argument ('' and ""): everything folds, sub-second; the symbolic LEN=2 query
